@@ -1,15 +1,10 @@
 package main
 
 import (
-	"verifharness/kit/report"
+	"verifharness/kit/driver"
 	"verifharness/props/c24"
 )
 
-type check struct {
-	Level string
-	Fn    func(r *report.Run) int
-}
-
-var checks = map[string]check{
-	"C24": {"exploration", c24.Run},
+var checks = map[string]driver.Check{
+	"C24": {Level: "exploration", Fn: c24.Run},
 }
